@@ -87,6 +87,16 @@ class WorkingStudent(Employee, Volunteer):
 
 
 @dataclass(eq=False)
+class Unit(Symbol):
+    """another domain of the transitive SubOrgOf property, under another field name"""
+    name: str
+    under: List[Org] = field(default_factory=list)
+
+    def __repr__(self):
+        return f"Unit({self.name})"
+
+
+@dataclass(eq=False)
 class Chief(Role[Person], Symbol):
     person: Person
     head_of: Org = None
@@ -175,6 +185,7 @@ Org.members = Member(Org, "members")
 VPerson.member_of = MemberOf(VPerson, "member_of")
 VOrg.members = Member(VOrg, "members")
 Org.sub_org_of = SubOrgOf(Org, "sub_org_of")
+Unit.under = SubOrgOf(Unit, "under")
 Org.wholly_owned_by = WhollyOwnedBy(Org, "wholly_owned_by")
 Org.part_of = PartOf(Org, "part_of")
 Org.has_part = HasPart(Org, "has_part")
@@ -183,4 +194,4 @@ PERSON_CLASSES = {"Person": Person, "Employee": Employee, "Manager": Manager, "V
                   "WorkingStudent": WorkingStudent}
 ORG_CLASSES = {"Org": Org, "Dept": Dept}
 ODD_CLASSES = {"Bag": Bag, "Crate": Crate}
-ALL_CLASSES = {**PERSON_CLASSES, **ORG_CLASSES, "Chief": Chief, "VOrg": VOrg, "VPerson": VPerson}
+ALL_CLASSES = {**PERSON_CLASSES, **ORG_CLASSES, "Chief": Chief, "VOrg": VOrg, "VPerson": VPerson, "Unit": Unit}
